@@ -7,6 +7,7 @@ verus! {
 //@nopub
 //@include ioerr.rs
 //@include error.rs
+//@include le.rs
 //@include bits.rs
 //@include dev.rs
 //@include bits_body.rs
